@@ -231,7 +231,8 @@ fn ns_root(kids: Vec<XN>, root_attrs: Vec<(String, Vec<TP>, bool)>, ws: u8, mark
         attrs.push(("data-embed".into(), vec![TP::Lit("1".into())], false));
     }
     let mut s = String::new();
-    write_node(&XN::El { name: "svg".into(), attrs, ws: ws | 32, kids }, &mut s);
+    // (a document root is always written as a start/end tag pair; an embedded subtree may be an empty-element tag)
+    write_node(&XN::El { name: "svg".into(), attrs, ws: if marker { ws } else { ws | 32 }, kids }, &mut s);
     s
 }
 
